@@ -246,7 +246,10 @@ const TEXTS: &[&str] = &["", "a", "abc", "hello world", "é", "日本語", "a\"b
 const KEYS: &[&str] = &["a", "b", "c", "site", "dis", "id", "x", "siteRef", "equipRef", "é", "", "key with space", "A", "zz"];
 const BAD_UNITS: &[&str] = &["", "nope", "kW ", "KW", "°", "kilowatt hour", "m/s/s/s"];
 const BAD_ZONES: &[&str] = &["", "Nowhere", "new_york", "UTC+1", "Mars/Olympus", "GMT+25"];
-const F64S: &[f64] = &[0.0, -0.0, 1.0, -1.0, 1.5, 42.0, 1e10, 1e-10, 9007199254740993.0, f64::MAX, f64::MIN_POSITIVE, f64::NAN, f64::INFINITY, f64::NEG_INFINITY, 90.0, -180.0];
+const F64S: &[f64] = &[
+    0.0, -0.0, 1.0, -1.0, 1.5, 42.0, 1e10, 1e-10, 9007199254740992.0, 9007199254740993.0, 9007199254740994.0, f64::MAX, f64::MIN_POSITIVE, f64::NAN, f64::INFINITY, f64::NEG_INFINITY, 90.0, -180.0,
+    255.0, 256.0, 65535.0, 65536.0, 2147483647.0, 2147483648.0, -2147483648.0, -2147483649.0, 4294967295.0, 4294967296.0, 9223372036854775807.0, -9223372036854775808.0, 18446744073709551615.0, 1e23, 5e-324,
+];
 const FILTERS: &[&str] = &["site", "a", "not a", "a == 1", "a and b", "a or site", "x > 1", "dis == \"rec 1\"", "siteRef->site", "siteRef == @r1", "a->b->c", "^site", "b == \"x\"", "a < 2 and b", "(a or b) and not c"];
 const BAD_FILTERS: &[&str] = &["", "a and", "o or", "dict->", "(a", "a == ", "==", "a b", "a === 1", "\"x\"", "1 == a", "a->", "not", ")"];
 const ZINC_RECORDS: &[&str] = &[
@@ -449,11 +452,11 @@ impl<'r> Gen<'r> {
                 if fault {
                     *rng.pick(&[-1i64, 0, -9999, 262143, 262144, i32::MAX as i64, i32::MIN as i64]) as u64
                 } else {
-                    *rng.pick(&[1i64, 1970, 1999, 2000, 2021, 2024, 9999]) as u64
+                    *rng.pick(&[1i64, 1582, 1900, 1970, 1999, 2000, 2020, 2021, 2024, 2038, 2100, 9999]) as u64
                 }
             }
             N::Month => if fault { *rng.pick(&[0u64, 13, 99, u32::MAX as u64]) } else { rng.range(1, 12) as u64 },
-            N::Day => if fault { *rng.pick(&[0u64, 30, 31, 32, u32::MAX as u64]) } else { rng.range(1, 28) as u64 },
+            N::Day => if fault { *rng.pick(&[0u64, 32, 99, u32::MAX as u64]) } else { rng.range(1, 31) as u64 },
             N::Index => {
                 let len = container
                     .and_then(|c| self.sim.vals[c].as_ref())
@@ -1020,6 +1023,84 @@ pub fn sweep_borrow(prop: &str) -> Vec<Case> {
     cases
 }
 
+/// Lists and dicts grown to every size around the points where their storage is reallocated or
+/// split (Vec capacities 4, 8, 16, 32, 64; B-tree nodes of 11 keys), then every entry operation
+/// at the edges of that size, including a borrowed entry of the container given back to it.
+pub fn sweep_size(prop: &str) -> Vec<Case> {
+    let mut cases = Vec::new();
+    for n in [0usize, 1, 2, 3, 4, 5, 7, 8, 9, 15, 16, 17, 31, 32, 33, 63, 64, 65] {
+        for variant in 0..6 {
+            let mut ops = vec![Op::new(0, "haystack_value_make_list").h(&[0]), Op::new(0, "haystack_value_make_dict").h(&[1]), Op::new(0, "haystack_value_init").h(&[3])];
+            for i in 0..n {
+                ops.push(Op::new(0, "haystack_value_make_number").h(&[2]).n(&[(i as f64).to_bits()]));
+                ops.push(Op::new(0, "haystack_value_push_list_entry").h(&[0, 2]));
+                let key = format!("k{i:02}");
+                ops.push(Op::new(0, "haystack_value_insert_dict_entry").h(&[1, 2]).s(&[Some(key.as_bytes())]));
+                ops.push(Op::new(0, "haystack_value_destroy").h(&[2]));
+            }
+            let last = n.saturating_sub(1) as u64;
+            ops.push(Op::new(0, "haystack_value_get_list_len").h(&[0]));
+            ops.push(Op::new(0, "haystack_value_get_dict_len").h(&[1]));
+            match variant {
+                0 => {
+                    // an entry of the full list pushed onto the same list, then read back
+                    ops.push(Op::new(0, "haystack_value_get_list_entry_at").h(&[0, 0]).n(&[0]));
+                    ops.push(Op::new(0, "haystack_value_push_list_entry").h(&[0, BORROW_BASE]));
+                    ops.push(Op::new(0, "haystack_value_get_list_entry_at").h(&[0, 1]).n(&[n as u64]));
+                    ops.push(Op::new(0, "borrow_read").h(&[1]));
+                }
+                1 => {
+                    ops.push(Op::new(0, "haystack_value_get_list_entry_at").h(&[0, 0]).n(&[last]));
+                    ops.push(Op::new(0, "haystack_value_set_list_entry_at").h(&[0, BORROW_BASE]).n(&[0]));
+                    ops.push(Op::new(0, "haystack_value_remove_list_entry_at").h(&[0]).n(&[last]));
+                    ops.push(Op::new(0, "haystack_value_remove_list_entry_at").h(&[0]).n(&[last]));
+                }
+                2 => {
+                    // a dict entry inserted again under a new key, under its own key, removed
+                    let key = format!("k{:02}", last);
+                    ops.push(Op::new(0, "haystack_value_get_dict_entry").h(&[1, 0]).s(&[Some(key.as_bytes())]));
+                    ops.push(Op::new(0, "haystack_value_insert_dict_entry").h(&[1, BORROW_BASE]).s(&[Some(b"zz")]));
+                    ops.push(Op::new(0, "haystack_value_get_dict_entry").h(&[1, 1]).s(&[Some(key.as_bytes())]));
+                    ops.push(Op::new(0, "haystack_value_insert_dict_entry").h(&[1, BORROW_BASE + 1]).s(&[Some(key.as_bytes())]));
+                    ops.push(Op::new(0, "haystack_value_remove_dict_entry").h(&[1]).s(&[Some(key.as_bytes())]));
+                    ops.push(Op::new(0, "haystack_value_remove_dict_entry").h(&[1]).s(&[Some(key.as_bytes())]));
+                }
+                3 => {
+                    ops.push(Op::new(0, "haystack_value_get_dict_keys").h(&[1, 3]));
+                    ops.push(Op::new(0, "haystack_value_get_list_len").h(&[3]));
+                    ops.push(Op::new(0, "haystack_value_get_list_entry_at").h(&[3, 0]).n(&[last]));
+                    ops.push(Op::new(0, "haystack_value_push_list_entry").h(&[3, BORROW_BASE]));
+                    ops.push(Op::new(0, "haystack_value_push_list_entry").h(&[3, 0]));
+                }
+                4 => {
+                    // the containers put into each other and encoded
+                    ops.push(Op::new(0, "haystack_value_push_list_entry").h(&[0, 1]));
+                    ops.push(Op::new(0, "haystack_value_insert_dict_entry").h(&[1, 0]).s(&[Some(b"list")]));
+                    ops.push(Op::new(0, "haystack_value_push_list_entry").h(&[0, 0]));
+                }
+                _ => {
+                    // rows of a grid: the list of n numbers is no row list; a list of n dicts is
+                    ops.push(Op::new(0, "haystack_value_make_grid_from_rows").h(&[4, 0]));
+                    ops.push(Op::new(0, "haystack_value_make_list").h(&[5]));
+                    for _ in 0..n.min(9) {
+                        ops.push(Op::new(0, "haystack_value_push_list_entry").h(&[5, 1]));
+                    }
+                    ops.push(Op::new(0, "haystack_value_make_grid_from_rows_with_meta").h(&[6, 5, 1]));
+                    ops.push(Op::new(0, "haystack_value_get_grid_len").h(&[6]));
+                    ops.push(Op::new(0, "haystack_value_get_grid_row_at").h(&[6, 3]).n(&[n.min(9).saturating_sub(1) as u64]));
+                    ops.push(Op::new(0, "haystack_value_get_grid_row_at").h(&[6, 3]).n(&[n.min(9) as u64]));
+                    ops.push(Op::new(0, "haystack_value_to_zinc_string").h(&[6, 2]));
+                }
+            }
+            ops.push(Op::new(0, "haystack_value_to_zinc_string").h(&[0, 0]));
+            ops.push(Op::new(0, "haystack_value_to_json_string").h(&[1, 1]));
+            ops.push(Op::new(0, "last_error_message").h(&[3]));
+            cases.push(history_case(prop, ops, format!("sweep:size n={n} variant={variant}")));
+        }
+    }
+    cases
+}
+
 /// Hostile text (NUL, empty, non-ASCII, astral, quotes, very long) in every string-bearing
 /// position of every kind, brought in through the Hayson decoder (the constructors cannot carry
 /// NUL), then every string getter, both encoders and the container accessors on it.
@@ -1201,7 +1282,7 @@ impl CApi {
     }
 }
 
-const SWEEPS: &[&str] = &["sweep:null", "sweep:kind", "sweep:index", "sweep:errslot", "sweep:borrow", "sweep:zone", "sweep:hostile"];
+const SWEEPS: &[&str] = &["sweep:null", "sweep:kind", "sweep:index", "sweep:errslot", "sweep:borrow", "sweep:zone", "sweep:hostile", "sweep:size"];
 /// sweeps are split into this many units so that they spread over the worker processes
 const SWEEP_PARTS: u64 = 8;
 
@@ -1237,6 +1318,7 @@ impl Engine for CApi {
                 "sweep:borrow" => sweep_borrow(prop),
                 "sweep:zone" => sweep_zone(prop),
                 "sweep:hostile" => sweep_hostile(prop),
+                "sweep:size" => sweep_size(prop),
                 _ => sweep_errslot(prop),
             };
             return Box::new(all.into_iter().enumerate().filter(move |(i, _)| *i as u64 % SWEEP_PARTS == part).map(|(_, c)| c));
@@ -1255,7 +1337,7 @@ impl Engine for CApi {
     }
 
     fn rule(&self) -> String {
-        let common = "one evaluation = one call history executed by 1-4 simulated caller threads (real OS threads, one token) against the real extern \"C\" functions, each call compared with the Rust API applied to shadow values; sweeps enumerate (function x pointer-parameter subset set to null), (function x handle parameter x fixture handle of every kind, called twice), (index function x boundary index pairs), (pairs of failing calls x caller threads x take orders x thread exit), (borrowed entry pointers one and two levels deep x every mutating call on their own root and on another container), (every zone of the tz database x three spellings x timestamp constructor, accessors, codecs), (hostile text - NUL, empty, astral, quotes, long - in every string-bearing position of every kind x every string getter, both encoders, container accessors); seeded histories draw swarm weights per history (operation mix, fault rates for null / wrong kind / out-of-range / invalid UTF-8 / long text, thread count, switch rate); a history is non-trivial when at least one injected argument fault fired (null pointer, wrong-kind handle, or a call the model expects to fail); distinct = distinct explicit histories";
+        let common = "one evaluation = one call history executed by 1-4 simulated caller threads (real OS threads, one token) against the real extern \"C\" functions, each call compared with the Rust API applied to shadow values; sweeps enumerate (function x pointer-parameter subset set to null), (function x handle parameter x fixture handle of every kind, called twice), (index function x boundary index pairs), (pairs of failing calls x caller threads x take orders x thread exit), (borrowed entry pointers one and two levels deep x every mutating call on their own root and on another container), (every zone of the tz database x three spellings x timestamp constructor, accessors, codecs), (hostile text - NUL, empty, astral, quotes, long - in every string-bearing position of every kind x every string getter, both encoders, container accessors), (lists and dicts grown to every size around their reallocation points x entry operations at the edges, incl. a borrowed entry given back to its own container); seeded histories draw swarm weights per history (operation mix, fault rates for null / wrong kind / out-of-range / invalid UTF-8 / long text, thread count, switch rate); a history is non-trivial when at least one injected argument fault fired (null pointer, wrong-kind handle, or a call the model expects to fail); distinct = distinct explicit histories";
         if self.mode == Mode::Memory {
             format!("{common}; oracle here: AddressSanitizer silent, no abort/signal, LeakSanitizer recoverable check after every history, null arguments answered by sentinel + retrievable error")
         } else {
